@@ -102,6 +102,37 @@ def main():
             lines.append(f"pmat{dim} " + " ".join(fs(v) for v in q))
             expect.append((P, dim))
 
+    # ---------------- (a') local frames of beam members vs the model of Model/BeamFrame.lean ----------------
+    flines, fexpect = [], []
+    sect_f = Mesher().Mesh_2D(Domain(Point(), Point(0.5, 0.25)))
+    for rep in range(16 if not thorough else 80):
+        bdim = 2 if rep % 4 == 0 else 3
+        while True:
+            d = np.array([rng.randint(-4, 4), rng.randint(-4, 4), rng.randint(-4, 4) if bdim == 3 else 0], float)
+            val = np.array([rng.randint(-4, 4), rng.randint(-4, 4), rng.randint(-4, 4) if bdim == 3 else 0], float)
+            if bdim == 2 and rep % 8 == 0:
+                val = np.array([0.0, 1.0, 0.0])
+            if np.linalg.norm(np.cross(d, val)) > 0.5:
+                break
+        val = val * rng.choice([0.125, 0.5, 1.0, 3.0, 16.0])         # the setter normalises: the length must not matter
+        pA = np.array([rng.randint(-3, 3) / 2, rng.randint(-3, 3) / 2, rng.randint(-3, 3) / 2 if bdim == 3 else 0.0])
+        identf = dict(beam_frame=True, dim=bdim, direction=d.tolist(), value=val.tolist(), start=pA.tolist())
+        try:
+            bm = Models.Beam.Isotropic(bdim, Line(Point(*pA), Point(*(pA + d))), sect_f, 1000.0, 0.25, tuple(val))
+            Pf = np.asarray(bm._Calc_P(), float)
+            if rep % 3 == 0:
+                # a second assignment on the existing model, then back: the frame follows the last assignment
+                bm.yAxis = tuple(np.cross(d, val))
+                bm.yAxis = tuple(val)
+                Pf = np.asarray(bm._Calc_P(), float)
+        except Exception as ex:  # noqa: BLE001
+            res.fail("beam frame raises", f"{type(ex).__name__}: {ex}"[:300], identf)
+            continue
+        flines.append("frame " + " ".join(fs(v) for v in list(d) + list(val)))
+        fexpect.append((Pf, d, identf))
+        res.case(("beam-frame", bdim, rep % 8 == 0, rep % 3 == 0))
+        res.count(f"beam-frame:dim{bdim}")
+
     # ---------------- (b) continuum problems ----------------
     types = (M.ALL_2D + M.ALL_3D) if thorough else ["TRI3", "TRI6", "QUAD4", "QUAD8", "TETRA4", "TETRA10", "HEXA8", "PRISM6"]
     laws = ["iso", "ti", "ortho", "aniso"]
@@ -635,6 +666,30 @@ def main():
                 continue
             if not (np.abs(model - P).max() <= 1e-12):
                 res.disagree("Get_Pmat", dict(dim=dim, maxdiff=float(np.abs(model - P).max())))
+    fans = driver.ask(flines)
+    if fans is None:
+        res.disagree("driver", "model driver does not run (frame): " + getattr(driver, "error", "")[:400])
+    else:
+        for (Pf, d, identf), ans in zip(fexpect, fans):
+            res.traces += 1
+            try:
+                vals = np.array([float(parse_frac(x)) for x in ans.split()])
+                ym, zm = vals[:3], vals[3:6]
+            except Exception:  # noqa: BLE001
+                res.disagree("beam frame", dict(identf, model=ans[:80]))
+                continue
+            cols = [d / np.linalg.norm(d), ym / np.linalg.norm(ym), zm / np.linalg.norm(zm)]
+            errf = max(np.abs(Pf[:, k] - cols[k]).max() for k in range(3))
+            if not (errf <= 1e-12):
+                res.disagree("beam frame", dict(identf, maxdiff=float(errf), real=Pf.tolist(), model=[c.tolist() for c in cols]))
+                # the property-level oracle: P must be a right-handed orthonormal frame whose first column is the fiber
+                orth = np.abs(Pf.T @ Pf - np.eye(3)).max()
+                if not (orth <= 1e-12 and abs(np.linalg.det(Pf) - 1) <= 1e-12 and np.abs(Pf[:, 0] - cols[0]).max() <= 1e-12):
+                    res.fail(f"beam frame not a right-handed orthonormal frame on the fiber dim={identf['dim']}",
+                             f"_Calc_P() = {Pf.tolist()} for the fiber direction {identf['direction']} and yAxis value {identf['value']}: |P^T P - 1| = {orth:.2e}, det = {np.linalg.det(Pf):.6f}", identf)
+                elif not (np.abs(Pf[:, 1] - cols[1]).max() <= 1e-12):
+                    res.fail(f"beam frame: the section axis is not the part of the given vector orthogonal to the fiber dim={identf['dim']}",
+                             f"yAxis = {Pf[:, 1].tolist()} instead of {cols[1].tolist()} for the fiber direction {identf['direction']} and the value {identf['value']}: the section is turned about the member, its response in its own axes changes with the inclination", identf)
     res.search_note = "every moved problem has the moved solution on the sampled meshes, laws and transformations"
     res.write("problems moved with Mesh.Rotate (generic angles, generic axes in 3D) / Mesh.Symmetry / Mesh.Translate: clamp + surface traction + body force on meshes of 2D / 3D element types, "
               "isotropic / transversely isotropic / orthotropic / anisotropic laws with axes moved with the problem, static and one Newmark step, heat conduction, hyperelastic Newton solve; "
